@@ -25,6 +25,7 @@ import (
 
 	spb "google.golang.org/genproto/googleapis/rpc/status"
 	"google.golang.org/protobuf/encoding/protojson"
+	"google.golang.org/protobuf/encoding/protowire"
 	"google.golang.org/protobuf/proto"
 )
 
@@ -163,7 +164,9 @@ func concretiseEntry(c EntryCase, r *rng) hreq {
 	case "ok":
 		h.hdr["Grpc-Timeout"] = pick([]string{"5S", "100m", "1H", "99999999S"})
 	case "bad":
-		h.hdr["Grpc-Timeout"] = pick([]string{"1x", "S", "-1S", "5", "123456789S", "1 S"})
+		h.hdr["Grpc-Timeout"] = pick([]string{"1x", "S", "5", "123456789S", "1 S", "1.5S"})
+	case "expired":
+		h.hdr["Grpc-Timeout"] = pick([]string{"-1S", "-5m", "-0n"})
 	}
 	if rq.Upg {
 		h.hdr["Upgrade"] = "websocket"
@@ -190,6 +193,9 @@ func concretiseEntry(c EntryCase, r *rng) hreq {
 		h.body = f
 	case rq.Meth == "POST":
 		h.body = msg
+		if rq.Path == "stream" && codec == "proto" { // the protobuf stream codec frames messages with a varint length
+			h.body = append(protowire.AppendVarint(nil, uint64(len(msg))), msg...)
+		}
 	}
 	return h
 }
@@ -476,7 +482,7 @@ func runWs(s *wsServer, id int, path string, hdr map[string]string, writes [][]b
 				tc.CloseWrite()
 			}
 		}
-		conn.SetReadDeadline(time.Now().Add(3 * time.Second))
+		conn.SetReadDeadline(time.Now().Add(time.Second))
 		rest, _ := io.ReadAll(br)
 		ev.Frames = parseServerFrames(rest)
 	} else if res != nil {
